@@ -61,6 +61,14 @@ check('q==-1 compares at 32 bits unsigned: 7 != 0xFFFFFFFF', em1, 0)
 check('ternary', tt, 9)
 check('signed compare', lt, 1)
 
+# 3b. unsized decimal literal wider than 32 bits keeps its value
+t = '''module m(input [32:0] a, output e, output [39:0] k);
+assign e = (a == 4294967296)? 1 : 0;
+assign k = 4294967296 + 1;
+endmodule'''
+(e33, k40), _ = comb(t, {'a': 1 << 32}, ['e', 'k'])
+check('33-bit decimal literal', [e33, k40], [1, (1 << 32) + 1])
+
 # 4. concatenation, replication, part select, bit select lvalue
 t = '''module m(input [1:0] a, input [2:0] b, output [4:0] c, output [5:0] rep, output [1:0] ps, output [3:0] k);
 assign c = {a, b};
